@@ -188,6 +188,8 @@ def script_w4(p):
         elif p["point_estimates"]:
             kw["point_estimates"] = list(p["point_estimates"])
         seen = []
+        if p.get("transitions"):
+            kw["transitions"] = lambda i: None if i == 0 else (lambda sl: sl.average())
         odir = (ROOT + "/out") if p["odir"] else None
         sl, mean = ift.optimize_kl(
             lh, p["nit"], (lambda i: (ns["a"] if i < ns["at"] else ns["b"])) if isinstance(ns, dict) else ns,
@@ -203,6 +205,13 @@ def script_w4(p):
             else:
                 sl2 = ift.SampleList.load(base, comm=comm)
             out["reloaded"] = list(sl2.iterator())
+            import pickle
+            nm = "latest" if p["strategy"] == "latest" else f"iteration_{p['nit'] - 1}"
+            with open(f"{odir}/pickle/energy_history_{nm}", "rb") as f:
+                eh = pickle.load(f)
+            out["energy_history_file"] = [list(eh.time_stamps), list(eh.energy_values)]
+            with open(f"{odir}/last_finished_iteration") as f:
+                out["marker"] = f.read()
         return comps(out)
     return run
 
@@ -305,7 +314,7 @@ def gen_params(script, rng):
                 "geovi": rng.random() < 0.3, "strategy": rng.choice(["all", "latest"]),
                 "constants": rng.choice([[], [], ["a"], "callable"]),
                 "point_estimates": rng.choice([[], [], ["b"], "callable"]),
-                "odir": rng.random() < 0.7}
+                "odir": rng.random() < 0.7, "transitions": rng.random() < 0.3}
     raise ValueError(script)
 
 
